@@ -290,9 +290,8 @@ def run_cases(config, cases, jobs=None, timeout=20, env_extra=None, tag='run', k
     os.makedirs(wd, exist_ok=True)
     env = san_env(config, env_extra)
     shards = [[] for _ in range(jobs)]
-    per = (len(cases) + jobs - 1) // jobs
-    for i, cs in enumerate(cases):
-        shards[i // per].append(cs)
+    for i, cs in enumerate(cases):      # round-robin: neighbouring (similar-cost) cases go to different workers
+        shards[i % jobs].append(cs)
     paths = []
     for k, sh in enumerate(shards):
         if not sh:
